@@ -58,9 +58,7 @@ static void t_strcpy(BP s, size_t l)
 {
     setK("strcpy", s, l + 1);
     uint8_t *pi = I[0].put(s, l + 1, PL, MA), *pr = R[0].put(s, l + 1, PL, MA);
-    uint8_t junk[96];
-    memset(junk, 0xEE, sizeof junk);
-    uint8_t *di = I[1].put(junk, l + 1, PL, MB), *dr = R[1].put(junk, l + 1, PL, MB);
+    uint8_t *di = I[1].put(nullptr, l + 1, PL, MB), *dr = R[1].put(nullptr, l + 1, PL, MB);
     char *ri = nullptr, *rr = strcpy((char *)dr, (char *)pr);
     CALL(ri = igc_strcpy((char *)di, (char *)pi));
     if (off(ri, di) != off(rr, dr))
@@ -77,9 +75,7 @@ static void t_strncpy(BP s, size_t l, size_t n)
     setN(n);
     K.cls = ncls(n, l);
     uint8_t *pi = I[0].put(s, sext, PL, MA), *pr = R[0].put(s, sext, PL, MA);
-    uint8_t junk[96];
-    memset(junk, 0xEE, sizeof junk);
-    uint8_t *di = I[1].put(junk, n, PL, MB), *dr = R[1].put(junk, n, PL, MB);
+    uint8_t *di = I[1].put(nullptr, n, PL, MB), *dr = R[1].put(nullptr, n, PL, MB);
     char *ri = nullptr, *rr = strncpy((char *)dr, (char *)pr, n);
     CALL(ri = igc_strncpy((char *)di, (char *)pi, n));
     if (off(ri, di) != off(rr, dr))
@@ -107,9 +103,7 @@ static void t_strlcpy(BP s, size_t l, size_t size)
     setN(size);
     K.cls = size == 0 ? "size0" : size <= l ? "truncating" : "fits";
     uint8_t *pi = I[0].put(s, l + 1, PL, MA), *pr = R[0].put(s, l + 1, PL, MA);
-    uint8_t junk[96];
-    memset(junk, 0xEE, sizeof junk);
-    uint8_t *di = I[1].put(junk, size, PL, MB), *dr = R[1].put(junk, size, PL, MB);
+    uint8_t *di = I[1].put(nullptr, size, PL, MB), *dr = R[1].put(nullptr, size, PL, MB);
     size_t ri = 0, rr = ref_strlcpy((char *)dr, (char *)pr, size);
     CALL(ri = igc_strlcpy((char *)di, (char *)pi, size));
     if (ri != rr)
@@ -364,11 +358,10 @@ static void t_cat(BP s, size_t sl, BP d, size_t dl)
 {
     setK("strcat", s, sl + 1, d, dl + 1);
     snprintf(K.extra, sizeof K.extra, "(a=src, b=dst string; dst array has %zu bytes)", dl + sl + 1);
-    uint8_t buf[128];
-    memset(buf, 0xEE, sizeof buf);
-    memcpy(buf, d, dl + 1);
     uint8_t *si = I[0].put(s, sl + 1, PL, MA), *sr = R[0].put(s, sl + 1, PL, MA);
-    uint8_t *di = I[1].put(buf, dl + sl + 1, PL, MB), *dr = R[1].put(buf, dl + sl + 1, PL, MB);
+    uint8_t *di = I[1].put(nullptr, dl + sl + 1, PL, MB), *dr = R[1].put(nullptr, dl + sl + 1, PL, MB);
+    memcpy(di, d, dl + 1);
+    memcpy(dr, d, dl + 1);
     char *ri = nullptr, *rr = strcat((char *)dr, (char *)sr);
     CALL(ri = igc_strcat((char *)di, (char *)si));
     if (off(ri, di) != off(rr, dr))
@@ -385,11 +378,10 @@ static void t_ncat(BP s, size_t sl, BP d, size_t dl, size_t n)
     setN(n);
     K.cls = ncls(n, sl);
     snprintf(K.extra, sizeof K.extra, "(a=src, b=dst string; dst array has %zu bytes)", dl + k + 1);
-    uint8_t buf[128];
-    memset(buf, 0xEE, sizeof buf);
-    memcpy(buf, d, dl + 1);
     uint8_t *si = I[0].put(s, sext, PL, MA), *sr = R[0].put(s, sext, PL, MA);
-    uint8_t *di = I[1].put(buf, dl + k + 1, PL, MB), *dr = R[1].put(buf, dl + k + 1, PL, MB);
+    uint8_t *di = I[1].put(nullptr, dl + k + 1, PL, MB), *dr = R[1].put(nullptr, dl + k + 1, PL, MB);
+    memcpy(di, d, dl + 1);
+    memcpy(dr, d, dl + 1);
     char *ri = nullptr, *rr = strncat((char *)dr, (char *)sr, n);
     CALL(ri = igc_strncat((char *)di, (char *)si, n));
     if (off(ri, di) != off(rr, dr))
@@ -692,6 +684,165 @@ MC_INIT
         PL = AFTER;
         MA = MB = 0;
         mc::more_cases(calls - 1, calls - 1);
+        flush_notes();
+    });
+    // (6) LARGE operands: lengths around 128, 256, 1000 (thorough: around 32768, 65536, 70000) - a length, index or
+    //     counter narrowed to 8 or 16 bits is invisible below 256 / 65536. Two NUL-free patterns (period-251 counting
+    //     bytes, so bytes 256 apart differ; all 'a'), a target byte / difference at positions 0,1,254..257,len-1,
+    //     n arguments 0,1,254..257,len-1,len,len+1,SIZE_MAX.
+    mc::add_check("str_large", [] {
+        init_arenas();
+        std::vector<size_t> LS = large_lengths();
+        int c0 = mc::choose((int)LS.size() * 2 * 6);
+        size_t L = LS[c0 / 12];
+        int pat = (c0 / 6) % 2, grp = c0 % 6;
+        static const char *GN[6] = {"strlen strnlen strcpy strncpy strlcpy strdup strndup", "strchr strrchr strchrnul", "strcmp strncmp strcasecmp strncasecmp",
+                                    "strstr strcasestr strspn strcspn strpbrk", "strcat strncat", "strlwr strupr"};
+        mc::describe("length %zu, pattern %s: %s; target byte / difference at 0,1,254..257,len-1; n in 0,1,254..257,len-1,len,len+1,SIZE_MAX; both guard placements",
+                     L, pat ? "all 'a'" : "bytes 1..251 repeating", GN[grp]);
+        mc::nontrivial();
+        set_window(L + 300);
+        std::vector<uint8_t> s(L + 2), b(L + 2);
+        for (size_t i = 0; i < L; i++)
+            s[i] = pat ? 'a' : (uint8_t)(i % 251 + 1);
+        s[L] = 0;
+        std::vector<size_t> P = large_positions(L), NS = large_ns(L);
+        unsigned long c_before = ncalls;
+        for (PL = AFTER; PL <= BEFORE; PL++)
+        {
+            if (grp == 0)
+            {
+                t_strlen(s.data(), L);
+                t_strcpy(s.data(), L);
+                t_strdup(s.data(), L);
+                for (size_t n : NS)
+                {
+                    t_strnlen(s.data(), L, n);
+                    t_strncpy(s.data(), L, n);
+                    t_strlcpy(s.data(), L, n);
+                    t_strndup(s.data(), L, n);
+                }
+                t_strnlen(s.data(), L, NMAX);
+                t_strndup(s.data(), L, NMAX);
+            }
+            else if (grp == 1)
+            {
+                t_chr(s.data(), L, 0);
+                t_chr(s.data(), L, 0xFE);
+                t_chr(s.data(), L, s[L - 1]);
+                for (size_t p : P)
+                {
+                    b = s;
+                    b[p] = 0xFE;
+                    t_chr(b.data(), L, 0xFE);
+                    t_chr(b.data(), L, 0xFE - 256);
+                    b[L - 1] = 0xFE; // first and last occurrence differ
+                    t_chr(b.data(), L, 0xFE);
+                    b[0] = 0xFE;
+                    t_chr(b.data(), L, 0xFE);
+                }
+            }
+            else if (grp == 2)
+            {
+                t_cmp(s.data(), L, s.data(), L);
+                t_casecmp(s.data(), L, s.data(), L);
+                for (size_t n : NS)
+                    t_ncmp(s.data(), L, s.data(), L, n);
+                for (size_t p : P)
+                {
+                    b = s;
+                    b[p] = 0xFD; // larger than every pattern byte
+                    t_cmp(s.data(), L, b.data(), L);
+                    t_cmp(b.data(), L, s.data(), L);
+                    t_cmp(s.data(), p, s.data(), L); // a proper prefix
+                    t_cmp(s.data(), L, s.data(), p);
+                    for (size_t n : {p, p + 1, (size_t)255, (size_t)256, (size_t)257, L, NMAX})
+                    {
+                        t_ncmp(s.data(), L, b.data(), L, n);
+                        t_ncmp(b.data(), L, s.data(), L, n);
+                    }
+                    // case-insensitive: other letter case everywhere, one real difference at p
+                    for (size_t i = 0; i < L; i++)
+                        b[i] = (s[i] >= 'a' && s[i] <= 'z') ? s[i] - 32 : (s[i] >= 'A' && s[i] <= 'Z') ? s[i] + 32 : s[i];
+                    t_casecmp(s.data(), L, b.data(), L);
+                    t_ncasecmp(s.data(), L, b.data(), L, L);
+                    b[p] = 0xFD;
+                    t_casecmp(s.data(), L, b.data(), L);
+                    t_casecmp(b.data(), L, s.data(), L);
+                    for (size_t n : {p, p + 1, (size_t)256, NMAX})
+                        t_ncasecmp(s.data(), L, b.data(), L, n);
+                }
+            }
+            else if (grp == 3)
+            {
+                for (size_t p : P)
+                {
+                    size_t nl = p + 3 <= L ? 3 : L - p;
+                    t_search(s.data(), L, s.data() + p, nl, false, false);
+                    t_search(s.data(), L, s.data() + p, nl, true, false);
+                    // a needle that occurs only at p
+                    b = s;
+                    b[p] = 0xFE;
+                    size_t st = p >= 2 ? p - 2 : 0, nl2 = st + 5 <= L ? 5 : L - st;
+                    std::vector<uint8_t> nd(b.begin() + st, b.begin() + st + nl2);
+                    nd.push_back(0);
+                    t_search(b.data(), L, nd.data(), nl2, false, false);
+                    t_search(b.data(), L, nd.data(), nl2, true, false);
+                    // spans: every byte but the one at p is in the set 1..251; the set {fe}
+                    uint8_t set[256];
+                    for (int k = 0; k < 251; k++)
+                        set[k] = k + 1;
+                    set[251] = 0;
+                    t_search(b.data(), L, set, 251, false, true);
+                    static const uint8_t fe[2] = {0xFE, 0};
+                    t_search(b.data(), L, fe, 1, false, true);
+                }
+                // long needles: a 257-byte prefix, the same with its last byte wrong, the whole string (<= 1000)
+                size_t nl = L >= 257 ? 257 : L;
+                std::vector<uint8_t> nd(s.begin(), s.begin() + nl);
+                nd.push_back(0);
+                t_search(s.data(), L, nd.data(), nl, false, false);
+                t_search(s.data(), L, nd.data(), nl, true, false);
+                nd[nl - 1] = 0xFD;
+                t_search(s.data(), L, nd.data(), nl, false, false);
+                t_search(s.data(), L, nd.data(), nl, true, false);
+                if (L <= 1000)
+                {
+                    t_search(s.data(), L, s.data(), L, false, false);
+                    b = s;
+                    b[L - 1] = 0xFD;
+                    t_search(s.data(), L, b.data(), L, false, false);
+                    t_search(b.data(), L, s.data(), L, true, false);
+                }
+            }
+            else if (grp == 4)
+            {
+                for (size_t dl : {(size_t)3, (size_t)255, (size_t)256})
+                {
+                    std::vector<uint8_t> d(dl + 1, 'x');
+                    d[dl] = 0;
+                    t_cat(s.data(), L, d.data(), dl);
+                    t_cat(d.data(), dl, s.data(), L);
+                    for (size_t n : NS)
+                        t_ncat(s.data(), L, d.data(), dl, n);
+                    t_ncat(s.data(), L, d.data(), dl, NMAX);
+                    t_ncat(d.data(), dl, s.data(), L, 255);
+                    t_ncat(d.data(), dl, s.data(), L, 257);
+                }
+            }
+            else
+            {
+                for (size_t i = 0; i < L; i++)
+                    b[i] = pat ? ((i % 3) ? 'a' + i % 26 : 'A' + i % 26) : (s[i] == 0 ? 1 : s[i]);
+                b[L] = 0;
+                t_lwrupr(b.data(), L);
+            }
+        }
+        PL = AFTER;
+        restore_window();
+        unsigned long calls = ncalls - c_before;
+        if (calls)
+            mc::more_cases(calls - 1, calls - 1);
         flush_notes();
     });
 }
